@@ -59,7 +59,8 @@ def scheme_table():
         if name in EMBEDDED:
             cfg.update(adaptive=True, adaptive_rtol=1e300, guess_dt="DT")
         t.append(("tdrk/" + name, "prop_and_compress_tdrk", cfg, ("order", p)))
-    for solver, tol in (("krylov", 1e-9), ("RK45", 1e-4)):
+    # "solver precision": the Lanczos exponential stops at ~1e-8 relative; the ODE solver at rtol 1e-5 / atol 1e-8
+    for solver, tol in (("krylov", 1e-7), ("RK45", 1e-4)):
         t.append(("ps/" + solver, "tdvp_ps", {"ivp_solver": solver}, ("exact", tol)))
         t.append(("ps2/" + solver, "tdvp_ps2", {"ivp_solver": solver}, ("exact", tol)))
     for m in ("tdvp_mu_vmf", "tdvp_vmf"):
@@ -239,6 +240,7 @@ def check_split(mname, model, h, st, sname, r, table):
         cur = st
         t_tot = 0.0
         bound = 0.0
+        label = None
         try:
             for _ in range(int(r.choice([2, 3]))):
                 label, method, cfg, kind = table[int(r.randint(len(table)))] if trial else table[3]
@@ -249,7 +251,8 @@ def check_split(mname, model, h, st, sname, r, table):
                 bound += call_bound(kind, hn, dt)
             e = float(np.linalg.norm(dense_of(cur) - ref_vec(h, psi, t_tot)))
         except Exception as ex:
-            rec = {"check": "split", "model": mname, "state": sname, "seq": seq, "exc": repr(ex)[:300]}
+            rec = {"check": "split", "model": mname, "state": sname, "seq": seq, "failing_call": label, "input_bond_dims": [int(x) for x in cur.bond_dims],
+                   "exc": repr(ex)[:300]}
             records.append(rec)
             fail("exception/sequence", rec)
             continue
